@@ -1,10 +1,280 @@
-(* C05 — see manifest.d/C05.json: what is proved for the scheduler model so far is
-   the lifecycle invariant (Props/C01.v); this file restates the part of it that
-   C05 relies on, so that the check of C05 fails when the model or that proof breaks.
-   The property itself is decided by the correspondence and the direct oracle of
-   harness/drivers/c05.py on every run. *)
-From Hio Require Import Base.Prelude Base.AMap Base.Time Model.Sched Proofs.SchedLife Proofs.SchedTop.
+(* C05 — run termination and done flags are exact.
+   Model: Model/Sched.v.  Proofs: Proofs/SchedCycleStop.v (stop rule),
+   Proofs/SchedCycleDone.v (done-flag invariant over all interpreter functions),
+   Proofs/SchedCycleDue.v (forced close touches no flag; reference model).
+   See manifest.d/C05.json for what is full / partial. *)
+From Hio Require Import Base.Prelude Base.AMap Base.Time Model.Sched Proofs.SchedFrame Proofs.SchedLife Proofs.SchedTop
+  Proofs.SchedCycleTick Proofs.SchedCycleDue Proofs.SchedCycleStop Proofs.SchedCycleDone.
 
+(* Vocabulary (Proofs/SchedCycleStop.v), all for the root scheduler:
+     entered fuel p        the state after Doist.enter, in which the cycle loop starts
+     enter_ok fuel p       enter did not raise (and had fuel)
+     after tk fuel s k     the state at the end of k complete cycles from s (pass, then tick)
+     cycle_ok tk fuel s    the pass of the cycle starting in s neither raises nor runs out of fuel
+     stops limit stop s2   the test at the end of a cycle: deque empty, or (limit truthy and stop <= tyme)
+     finish tk fuel s2     what do() does then: done := True iff the deque is empty; exit; return
+     run_limit p = |limit| , run_stop p = start + |limit| (start + 0 without a limit). *)
+
+(* ------------------------------------------------------------------ *)
+(* 1. The stop rule.  FULL: every program (dynamic, nested, any limit), every time
+   instance.  If n is the first cycle at whose end the test holds (and no pass up
+   to there raises), the run ends exactly there: n+1 ticks after the start, with
+   Doist.done = True iff the deque was empty (else whatever it was: see 3.). *)
+Theorem C05_stop_rule :
+  forall (T : Type) (TT : Time T) (cycles fuel : nat) (p : prog T) (n : nat),
+    let tk := p_tock p in let s0 := entered fuel p in
+    enter_ok fuel p = true -> (n < cycles)%nat ->
+    (forall j, (j <= n)%nat -> cycle_ok tk fuel (after tk fuel s0 j) = true) ->
+    (forall j, (j < n)%nat -> stops (run_limit p) (run_stop p) (after tk fuel s0 (S j)) = false) ->
+    stops (run_limit p) (run_stop p) (after tk fuel s0 (S n)) = true ->
+    let s2 := after tk fuel s0 (S n) in
+    do_run cycles fuel p = finish tk fuel s2 /\
+    tyme (do_run cycles fuel p) = grid (p_tyme p) (p_tock p) (S n) /\
+    get_done (do_run cycles fuel p) 0%N =
+      match deeds (get_sched s2 0%N) with [] => Some true | _ => get_done s2 0%N end.
+Proof. intros. now apply do_run_stop. Qed.
+Print Assumptions C05_stop_rule.
+
+(* ... and nothing else can happen: every run either exhausts a budget (oof), or
+   fails in enter, or stops by the rule at some cycle n, or is ended by a pass
+   that raises (no tick; DoRaise, or DoReturn for a KeyboardInterrupt). *)
+Theorem C05_exhaustive :
+  forall (T : Type) (TT : Time T) (cycles fuel : nat) (p : prog T),
+    let tk := p_tock p in let s0 := entered fuel p in
+    oof (do_run cycles fuel p) = true \/
+    (exists s1 kbd, enter_own tk fuel (init_st p) 0%N (p_doers p) = (s1, GRaise kbd) /\
+        do_run cycles fuel p = emit (close_own tk fuel s1 0%N) DoRaise 0%N) \/
+    (exists n, (n < cycles)%nat /\
+       (forall j, (j <= n)%nat -> cycle_ok tk fuel (after tk fuel s0 j) = true) /\
+       (forall j, (j < n)%nat -> stops (run_limit p) (run_stop p) (after tk fuel s0 (S j)) = false) /\
+       stops (run_limit p) (run_stop p) (after tk fuel s0 (S n)) = true /\
+       do_run cycles fuel p = finish tk fuel (after tk fuel s0 (S n))) \/
+    (exists n s1 kbd, (n < cycles)%nat /\
+       (forall j, (j < n)%nat -> cycle_ok tk fuel (after tk fuel s0 j) = true /\
+                                stops (run_limit p) (run_stop p) (after tk fuel s0 (S j)) = false) /\
+       recur_pass tk fuel (after tk fuel s0 n) 0%N = (s1, GRaise kbd) /\
+       do_run cycles fuel p = emit (close_own tk fuel s1 0%N) (if kbd then DoReturn else DoRaise) 0%N).
+Proof.
+  intros T TT cycles fuel p. cbv zeta.
+  destruct (enter_ok fuel p) eqn:Ok.
+  - rewrite (do_run_loop cycles fuel p Ok).
+    destruct (cycle_loop_cases (p_tock p) fuel (run_limit p) (run_stop p) cycles (entered fuel p)) as [O|[C|C]].
+    + left. exact O.
+    + right. right. left. exact C.
+    + right. right. right. exact C.
+  - unfold enter_ok in Ok. unfold do_run.
+    destruct (enter_own (p_tock p) fuel (init_st p) 0%N (p_doers p)) as [s1 r] eqn:E. cbn [snd] in Ok.
+    destruct r as [t| |kbd|]; try discriminate.
+    + right. left. exists s1, kbd. split; reflexivity.
+    + left. exact (enter_own_fuel _ _ _ _ _ _ E).
+Qed.
+Print Assumptions C05_exhaustive.
+
+(* ------------------------------------------------------------------ *)
+(* 2. Without a limit (None, or falsy: 0.0): the run ends exactly after the first
+   cycle at whose end the deque is empty, with Doist.done = True.  FULL. *)
+Theorem C05_nolimit :
+  forall (T : Type) (TT : Time T) (cycles fuel : nat) (p : prog T) (n : nat),
+    let tk := p_tock p in let s0 := entered fuel p in
+    limited (run_limit p) = false ->
+    enter_ok fuel p = true -> (n < cycles)%nat ->
+    (forall j, (j <= n)%nat -> cycle_ok tk fuel (after tk fuel s0 j) = true) ->
+    (forall j, (j < n)%nat -> deeds (get_sched (after tk fuel s0 (S j)) 0%N) <> []) ->
+    deeds (get_sched (after tk fuel s0 (S n)) 0%N) = [] ->
+    tyme (do_run cycles fuel p) = grid (p_tyme p) (p_tock p) (S n) /\
+    get_done (do_run cycles fuel p) 0%N = Some true.
+Proof.
+  intros T TT cycles fuel p n. cbv zeta. intros L Ok Hc Oks Ne Em.
+  destruct (do_run_stop cycles fuel p n Ok Hc Oks) as (_ & Ty & Dn).
+  - intros j Hj. rewrite (stops_nolimit _ _ _ L). specialize (Ne j Hj).
+    destruct (deeds (get_sched (after (p_tock p) fuel (entered fuel p) (S j)) 0%N)) eqn:Ed; congruence.
+  - rewrite (stops_nolimit _ _ _ L), Em. reflexivity.
+  - split; [exact Ty|]. rewrite Dn, Em. reflexivity.
+Qed.
+Print Assumptions C05_nolimit.
+
+(* ------------------------------------------------------------------ *)
+(* 3. With a truthy limit L: the run ends after the first cycle whose end tyme
+   satisfies start + |L| <= tyme or whose deque is empty; Doist.done = True iff
+   the deque was empty at that point.  FULL for programs in which no doer is
+   numbered 0 (0 is the root Doist; the harness never uses it for a doer). *)
+Theorem C05_limit :
+  forall (T : Type) (TT : Time T) (cycles fuel : nat) (p : prog T) (n : nat),
+    let tk := p_tock p in let s0 := entered fuel p in
+    get (p_defs p) 0%N = None ->
+    limited (run_limit p) = true ->
+    enter_ok fuel p = true -> (n < cycles)%nat ->
+    (forall j, (j <= n)%nat -> cycle_ok tk fuel (after tk fuel s0 j) = true) ->
+    (forall j, (j < n)%nat -> deeds (get_sched (after tk fuel s0 (S j)) 0%N) <> [] /\
+                              tleb (run_stop p) (grid (p_tyme p) tk (S j)) = false) ->
+    (deeds (get_sched (after tk fuel s0 (S n)) 0%N) = [] \/ tleb (run_stop p) (grid (p_tyme p) tk (S n)) = true) ->
+    tyme (do_run cycles fuel p) = grid (p_tyme p) (p_tock p) (S n) /\
+    (get_done (do_run cycles fuel p) 0%N = Some true <-> deeds (get_sched (after tk fuel s0 (S n)) 0%N) = []).
+Proof.
+  intros T TT cycles fuel p n. cbv zeta. intros R L Ok Hc Oks Ne St.
+  assert (Ty : forall k, tyme (after (p_tock p) fuel (entered fuel p) k) = grid (p_tyme p) (p_tock p) k).
+  { intro k. rewrite after_tyme, entered_tyme. reflexivity. }
+  destruct (do_run_stop cycles fuel p n Ok Hc Oks) as (_ & Tyf & Dn).
+  - intros j Hj. rewrite (stops_limit _ _ _ L), Ty. destruct (Ne j Hj) as [N1 N2].
+    destruct (deeds (get_sched (after (p_tock p) fuel (entered fuel p) (S j)) 0%N)) eqn:Ed; [congruence|exact N2].
+  - rewrite (stops_limit _ _ _ L), Ty. destruct St as [E|E]; [now rewrite E|].
+    destruct (deeds (get_sched (after (p_tock p) fuel (entered fuel p) (S n)) 0%N)); [reflexivity|exact E].
+  - split; [exact Tyf|]. rewrite Dn.
+    pose proof (root_flag_not_true fuel p (S n) R) as Nt.
+    destruct (deeds (get_sched (after (p_tock p) fuel (entered fuel p) (S n)) 0%N)); split; intro X;
+      try reflexivity; try discriminate; contradiction.
+Qed.
+Print Assumptions C05_limit.
+
+(* ------------------------------------------------------------------ *)
+(* 4. Doer done flags.  FULL invariant, every program without a doer numbered 0,
+   every time instance, any budgets, in the final state of the run:
+   - a leaf doer's flag is True only if its most recent lifecycle is
+     Enter Recur^n Clean Exit (it returned by itself, never forced, never raised)
+     and step n of its script is `return True`;
+   - a number that names no doer (other than the root) never has flag True. *)
+Theorem C05_done_flags :
+  forall (T : Type) (TT : Time T) (cycles fuel : nat) (p : prog T) (i : id),
+    get (p_defs p) 0%N = None ->
+    let s := do_run cycles fuel p in
+    match get (p_defs p) i with
+    | Some (FLeaf k sc) =>
+        get_done s i = Some true ->
+        exists n older, evs i s = Exit :: Clean :: repeat Recur n ++ Enter :: older /\
+                        f_out (nth n sc default_step) = OReturn RTrue
+    | Some (FNest _ _ _) => True
+    | None => i <> 0%N -> get_done s i <> Some true
+    end.
+Proof.
+  intros T TT cycles fuel p i R. cbv zeta.
+  destruct (do_run_dinv cycles fuel p R) as (_ & A). specialize (A i). unfold dj, returned_true in A.
+  destruct (get (p_defs p) i) as [[k sc|t al kids]|]; [exact (proj2 A)|exact I|].
+  intro Ne. apply A. now right.
+Qed.
+Print Assumptions C05_done_flags.
+
+(* the same invariant is preserved by every single scheduler operation from any
+   state that satisfies it (one-step form) *)
+Theorem C05_done_flags_preserved :
+  forall (T : Type) (TT : Time T) (tk : T) (D : amap (fdef T)) (rootx : bool) (fuel : nat) (s : st T) (i sid : id),
+    DInv D rootx s ->
+    DInv D rootx (fst (gen_send tk fuel s i)) /\ DInv D rootx (gen_close tk fuel s i) /\
+    DInv D rootx (fst (recur_pass tk fuel s sid)) /\ DInv D rootx (close_own tk fuel s sid) /\
+    (get_done s i <> Some true -> DInv D rootx (fst (gen_start tk fuel s i))).
+Proof.
+  intros T TT tk D rootx fuel s i sid L.
+  destruct (dinv_allf tk D rootx fuel) as (Ist & _ & Isd & Icl & Ico & _ & _ & _ & _ & Irp & _).
+  split; [|split; [|split; [|split]]].
+  - destruct (gen_send tk fuel s i) as [s' r] eqn:E. eapply Isd; eassumption.
+  - now apply Icl.
+  - destruct (recur_pass tk fuel s sid) as [s' r] eqn:E. eapply Irp; eassumption.
+  - now apply Ico.
+  - intro Nd. destruct (gen_start tk fuel s i) as [s' r] eqn:E. eapply Ist; eassumption.
+Qed.
+Print Assumptions C05_done_flags_preserved.
+
+(* enter (Doist.enter, DoDoer.enter, extend): done := False before the doer starts *)
+Theorem C05_enter_sets_false :
+  forall (T : Type) (TT : Time T) (tk : T) (f : nat) (s : st T) (sid i : id) rest,
+    enter_own tk (S f) s sid (i :: rest) =
+    let '(s1, r) := gen_start tk f (set_done s i (Some false)) i in
+    match r with
+    | GYield _ => enter_own tk f (set_deeds s1 sid (deeds (get_sched s1 sid) ++ [DDeed i (tyme s1)])) sid rest
+    | GReturn => enter_own tk f s1 sid rest
+    | GRaise kbd => (s1, GRaise kbd)
+    | GFuel => (s1, GFuel)
+    end.
+Proof. intros. apply enter_own_sets_false. Qed.
+Print Assumptions C05_enter_sets_false.
+
+(* one resumption of a leaf doer (s1 = the state after the step's effects): its
+   flag becomes done_after kind r old exactly when the step returns r by itself;
+   a yield, a raise, an interrupt leave every flag as it was *)
+Theorem C05_done_after :
+  forall (T : Type) (TT : Time T) (tk : T) (f : nat) (s : st T) (i : id) k sc pc s' r,
+    run_step tk (S f) s i k sc pc = (s', r) ->
+    let s1 := fst (run_effects tk f s i (f_es (nth pc sc default_step))) in
+    match snd (run_effects tk f s i (f_es (nth pc sc default_step))), f_out (nth pc sc default_step) with
+    | GFuel, _ | GRaise _, _ => dones s' = dones s1
+    | _, OReturn rv => get_done s' i = done_after k rv (get_done s1 i) /\
+                       (forall j, j <> i -> get_done s' j = get_done s1 j) /\ r = GReturn
+    | _, _ => dones s' = dones s1
+    end.
+Proof. intros. now apply run_step_done. Qed.
+Print Assumptions C05_done_after.
+
+(* forced close (close() of a doer, exit() of a scheduler, at any depth) never
+   touches any done flag *)
+Theorem C05_close_keeps_done :
+  forall (T : Type) (TT : Time T) (tk : T) (f : nat) (s : st T),
+    (forall i, dones (gen_close tk f s i) = dones s) /\
+    (forall sid, dones (close_own tk f s sid) = dones s) /\
+    (forall ds, dones (close_list tk f s ds) = dones s).
+Proof. intros. apply close_keeps_dones. Qed.
+Print Assumptions C05_close_keeps_done.
+
+(* static flat programs: Doist.done and the final tyme are those of the reference
+   cycle model (see C03_flat_refines) *)
+Theorem C05_flat_done :
+  forall (T : Type) (TT : Time T) (cycles fuel : nat) (p : prog T),
+    flat_static p = true -> oof (do_run cycles fuel p) = false ->
+    exists blocks (dn : bool),
+      ref_run cycles p = Some (blocks, tyme (do_run cycles fuel p), dn) /\
+      get_done (do_run cycles fuel p) 0%N = Some dn.
+Proof.
+  intros T TT cycles fuel p F O. destruct (do_run_ref cycles fuel p F O) as (res & dn & R & _ & Dn).
+  exists res, dn. split; assumption.
+Qed.
+Print Assumptions C05_flat_done.
+
+(* ------------------------------------------------------------------ *)
+(* Non-vacuity.  A nested program with a limit that is not a multiple of tock:
+   tock 2, start 10, limit 5 -> stop at the first cycle end >= 15, i.e. 16 (n = 2);
+   doer 1 returns True at 12, doer 4 returns None, doer 5 is still alive at the end. *)
+Definition Y (t : option Z) : fstep Z := {| f_es := []; f_out := OYield t |}.
+Definition R (r : ret) : fstep Z := {| f_es := []; f_out := OReturn r |}.
+Definition ex_limit : prog Z :=
+  {| p_tock := 2%Z; p_limit := Some (-5)%Z; p_tyme := 10%Z; p_doers := [1; 2; 5]%N;
+     p_defs := [(1, FLeaf KFunc [Y None; Y None; R RTrue]); (2, FNest 0%Z false [3; 4]);
+                (3, FLeaf KDoer [Y None; Y None; Y None; Y None; Y None]); (4, FLeaf KDoerGen [Y None; R RNone]);
+                (5, FLeaf KFunc [Y None; Y None; Y None; Y None; Y None; Y None])]%N |}.
+
+Example C05_example_limit :
+  let p := ex_limit in let tk := p_tock p in let s0 := entered 100 p in
+  get (p_defs p) 0%N = None /\ limited (run_limit p) = true /\ enter_ok 100 p = true /\
+  (forall j, (j <= 2)%nat -> cycle_ok tk 100 (after tk 100 s0 j) = true) /\
+  (forall j, (j < 2)%nat -> deeds (get_sched (after tk 100 s0 (S j)) 0%N) <> [] /\
+                            tleb (run_stop p) (grid (p_tyme p) tk (S j)) = false) /\
+  tleb (run_stop p) (grid (p_tyme p) tk 3) = true /\
+  oof (do_run 50 100 p) = false /\ tyme (do_run 50 100 p) = 16%Z /\
+  get_done (do_run 50 100 p) 0%N = Some false /\
+  get_done (do_run 50 100 p) 1%N = Some true /\ get_done (do_run 50 100 p) 4%N = None /\
+  get_done (do_run 50 100 p) 5%N = Some false.
+Proof.
+  cbv zeta. split; [reflexivity|]. split; [reflexivity|]. split; [vm_compute; reflexivity|].
+  split. { intros j Hj. destruct j as [|[|[|j]]]; try lia; vm_compute; reflexivity. }
+  split. { intros j Hj. destruct j as [|[|j]]; try lia; (split; [vm_compute; discriminate|vm_compute; reflexivity]). }
+  vm_compute. repeat split.
+Qed.
+
+(* the same doers without a limit: all complete, the run ends at the first empty deque *)
+Definition ex_nolimit : prog Z :=
+  {| p_tock := 2%Z; p_limit := Some 0%Z; p_tyme := 10%Z; p_doers := [1; 2; 5]%N; p_defs := p_defs ex_limit |}.
+Example C05_example_nolimit :
+  let p := ex_nolimit in let tk := p_tock p in let s0 := entered 100 p in
+  limited (run_limit p) = false /\ enter_ok 100 p = true /\
+  (forall j, (j <= 5)%nat -> cycle_ok tk 100 (after tk 100 s0 j) = true) /\
+  (forall j, (j < 5)%nat -> deeds (get_sched (after tk 100 s0 (S j)) 0%N) <> []) /\
+  deeds (get_sched (after tk 100 s0 6) 0%N) = [] /\
+  oof (do_run 50 100 p) = false /\ tyme (do_run 50 100 p) = 22%Z /\ get_done (do_run 50 100 p) 0%N = Some true.
+Proof.
+  cbv zeta. split; [reflexivity|]. split; [vm_compute; reflexivity|].
+  split. { intros j Hj. destruct j as [|[|[|[|[|[|j]]]]]]; try lia; vm_compute; reflexivity. }
+  split. { intros j Hj. destruct j as [|[|[|[|[|j]]]]]; try lia; vm_compute; discriminate. }
+  vm_compute. repeat split.
+Qed.
+
+(* The lifecycle core C05 relies on (kept from the interim version). *)
 Theorem C05_lifecycles_core :
   forall (T : Type) (TT : Time T) (cycles fuel : nat) (p : prog T) (j : id),
     life_ok (get_gen (do_run cycles fuel p) j) (events j (do_run cycles fuel p)).
